@@ -49,14 +49,13 @@ type (
 // BuildExecutor use db type and transaction type to build an executor. the executor can
 // add custom hook, and intercept the user's business sql to generate the undo log.
 func BuildExecutor(dbType types.DBType, transactionMode types.TransactionMode, query string) (SQLExecutor, error) {
-	parseContext, err := parser.DoParser(query)
-	if err != nil {
-		return nil, err
-	}
-
 	hooks := make([]SQLHook, 0, 4)
 	hooks = append(hooks, commonHook...)
-	hooks = append(hooks, hookSolts[parseContext.SQLType]...)
+	// a statement this parser does not understand has no hooks of a statement type; whether it may run at all
+	// is for the executor to say, which knows whether a global transaction is open
+	if parseContext, err := parser.DoParser(query); err == nil {
+		hooks = append(hooks, hookSolts[parseContext.SQLType]...)
+	}
 
 	e := atExecutors[dbType]()
 	e.Interceptors(hooks)
